@@ -377,6 +377,8 @@ type flatWant struct {
 	addr     []int
 	sub      int
 	gas      uint64
+	gasUsed  uint64
+	output   []byte
 	isAspect bool
 	err      string
 	callType string
@@ -393,7 +395,7 @@ func flatExpect(f *evFrame, addr []int, includePre bool, out *[]flatWant) {
 			calls = append(calls, &f.Calls[i])
 		}
 	}
-	w := flatWant{addr: addr, sub: len(f.Pre) + len(calls) + len(f.Post), gas: f.Gas, err: f.Err, callType: strings.ToLower(opTypeName(f.Type)), typ: "call"}
+	w := flatWant{addr: addr, sub: len(f.Pre) + len(calls) + len(f.Post), gas: f.Gas, gasUsed: f.GasUsed, output: f.Output, err: f.Err, callType: strings.ToLower(opTypeName(f.Type)), typ: "call"}
 	switch f.Type {
 	case CREATE, CREATE2:
 		w.typ, w.callType = "create", ""
@@ -411,7 +413,7 @@ func flatExpect(f *evFrame, addr []int, includePre bool, out *[]flatWant) {
 			}
 		}
 		ad := child()
-		*out = append(*out, flatWant{addr: ad, sub: len(ac), gas: a.GasIn, isAspect: true, err: a.Err, callType: strings.ToLower(jpNames[a.JP]), typ: "call"})
+		*out = append(*out, flatWant{addr: ad, sub: len(ac), gas: a.GasIn, gasUsed: a.GasIn - a.GasOut, output: a.Ret, isAspect: true, err: a.Err, callType: strings.ToLower(jpNames[a.JP]), typ: "call"})
 		for i, c := range ac {
 			flatExpect(c, append(append([]int{}, ad...), i), includePre, out)
 		}
@@ -566,6 +568,32 @@ func checkC19(tx evTx, st *Stats) (viol *Violation) {
 			}
 			if g.Error != wantErr {
 				return violf("flat/error", "%s: error %q, expected %q", p, g.Error, wantErr)
+			}
+			// result: own gas used and output; kept for successful and for reverted
+			// executions (the revert data is the reason), dropped for other failures
+			if w.typ != "suicide" {
+				keep := w.err == "" || w.err == "execution reverted"
+				if keep != (g.Result != nil) {
+					return violf("flat/result", "%s (error %q): result present: %v, expected: %v", p, w.err, g.Result != nil, keep)
+				}
+				if keep {
+					wantUsed := w.gasUsed
+					if i == 0 {
+						wantUsed = tx.GasLimit - tx.RestGas
+					}
+					if g.Result.GasUsed == nil || uint64(*g.Result.GasUsed) != wantUsed {
+						return violf("flat/gas-used", "%s: result.gasUsed %v, this execution used %d", p, g.Result.GasUsed, wantUsed)
+					}
+					if w.typ == "call" && (w.err == "" || (w.isAspect && len(w.output) > 0)) {
+						var got []byte
+						if g.Result.Output != nil {
+							got = *g.Result.Output
+						}
+						if string(got) != string(w.output) {
+							return violf("flat/output", "%s: result.output %x, this execution returned %x", p, got, w.output)
+						}
+					}
+				}
 			}
 		}
 	}
